@@ -46,7 +46,13 @@ LinePool == <<
   S("// say ") \o Q1 \o S("hi"),
   S("c == ") \o Q1 \o <<92, 92>> \o Q1,
   \* a string constant spanning lines, one of which looks like a comment line (the line-based comment scan sees it)
-  S("b == ") \o Q1 \o S("x") \o <<10>> \o S("// inside") \o <<10>> \o S("y") \o Q1 >>
+  S("b == ") \o Q1 \o S("x") \o <<10>> \o S("// inside") \o <<10>> \o S("y") \o Q1,
+  \* pairs of lines that differ only behind a // inside a string constant, or only in the spelling of an equal constant
+  S("b == ") \o Q1 \o S("x") \o <<10>> \o S("// other") \o <<10>> \o S("y") \o Q1,
+  S("@docs: ") \o Q1 \o S("http://a.b/x") \o Q1 \o S(";"),
+  S("@docs: ") \o Q1 \o S("http://a.b/y") \o Q1 \o S(";"),
+  S("@w: d0.5;"),
+  S("@w: d0.50;") >>
 
 Term == IF style = 2 THEN <<13, 10>> ELSE <<10>>
 RECURSIVE Assemble(_)
@@ -59,10 +65,10 @@ Next == /\ Len(ls) < N /\ \E i \in 1..Len(LinePool) : ls' = Append(ls, i)
         /\ style' = style
 
 \* ---- the property restated on the result, independently of FoldMeta / RuleFromToks ---------
-IsC(i) == ls[i] \in {1, 2, 3, 4, 18, 26, 28}                       \* the comment lines of the pool
+IsC(i) == ls[i] \in {1, 2, 3, 4, 18, 26, 28, 29}                       \* the comment lines of the pool
 CTextOf(i) == CASE ls[i] = 1 -> S("name one") [] ls[i] = 2 -> S("indented") [] ls[i] = 3 -> <<>>
                 [] ls[i] = 4 -> S("second line") [] ls[i] = 18 -> S("nbsp indented")
-                [] ls[i] = 26 -> S("say ") \o Q1 \o S("hi") [] ls[i] = 28 -> S("inside")
+                [] ls[i] = 26 -> S("say ") \o Q1 \o S("hi") [] ls[i] = 28 -> S("inside") [] ls[i] = 29 -> S("other")
 Comments == LET idx == SelectSeq([i \in 1..Len(ls) |-> i], IsC) IN [j \in 1..Len(idx) |-> CTextOf(idx[j])]
 
 ExtractedP(text, toks, res) ==
